@@ -12,12 +12,13 @@ for fn in sorted(os.listdir(os.path.join(HERE, 'meta'))):
         meta[fn[:-5]] = json.load(open(os.path.join(HERE, 'meta', fn)))
 props = [json.loads(l) for l in open(os.path.join(VERIF, 'properties.jsonl'))]
 
+integrated = set(open(os.path.join(HERE, 'integrated.txt')).read().split())
 checks, na = [], []
 for p in props:
     pid = p['id']
     m = meta.get(pid, {})
     have = os.path.exists(os.path.join(VERIF, 'harness', 'prop_%s.py' % pid)) and \
-        os.path.exists(os.path.join(VERIF, 'lean', 'Props', '%s.lean' % pid)) and m.get('claimed', False)
+        os.path.exists(os.path.join(VERIF, 'lean', 'Props', '%s.lean' % pid)) and m.get('claimed', False) and pid in integrated
     if not have:
         na.append({'property_id': pid, 'reason': m.get('na_reason', 'check under construction in this round: Lean model, '
                                                        'theorems and correspondence harness not yet committed')})
